@@ -26,6 +26,18 @@ def multiGenD (op : String) (args : List Nat) : Option String :=
           ok (eList (fun (x, k) => [x, k]) out)
         | none => reject
       | none => reject
+  -- mgskip: the generator is advanced with `skip(k)` / `step_by(w)` (i.e. through `Iterator::nth`), as the train
+  -- loader does: the items at positions k, k + w, k + 2w, ... of the plain iteration
+  | "mgskip" => some <| match runP (do let s ← pNat; let lens ← pNats; let k ← pNat; let w ← pNat; pure (s, lens, k, w)) args with
+      | some (s, lens, k, w) => match strategyOf s with
+        | some .weighted => reject
+        | some st =>
+          if lens.isEmpty || w == 0 then reject else
+          let out := (mgRun st (srcsOfLens lens) []).drop k
+          let sel := (List.range out.length).filterMap (fun j => if j % w == 0 then out[j]? else none)
+          ok (eList (fun (x, k) => [x, k]) sel)
+        | none => reject
+      | none => reject
   | "mgw" | "mgwb" => some <| match runP (do
         let lens ← pNats; let _seed ← pNat; let tags ← pNats
         if op == "mgwb" then (do let _ ← pList (do let a ← pNat; let b ← pNat; let c ← pNat; pure (a, b, c)); pure ()) else pure ()
